@@ -8,8 +8,9 @@ all argument byte strings.
 
 Tie: (T) the translator output is what the theorems are about; (C) stream `keys` runs the real utils.ConcatKey and
 the real storage.CacheDB / OverlayDB against the Lean model (concatKey, cacheRun, commit) on every generated shape
-with seeded field values; dynamic cross-check: every raw key written by the cross-chain-manager and genesis
-correspondence streams (real handlers) must start with ST_STORAGE ‖ a contract address and parse under exactly one
+with seeded field values; dynamic cross-check: every raw key written by the cross-chain-manager, genesis and
+governance-flow streams (real handlers: imports, installers, register/approve flows of side chains, relayers, state
+validators and nodes) must start with ST_STORAGE ‖ a contract address and parse under exactly one
 record family of the generated table of that contract.
 
 Search on failure: a Python mirror of the decision procedures names the undecided pair / non-injective shape and
@@ -24,7 +25,7 @@ import subprocess
 import vcheck
 
 ANN = os.path.join(vcheck.EXTRACT, "keyshapes", "annotations.json")
-KEYLOG_FAMS = ("ccm", "genesis")  # harness families whose written keys are cross-checked against the generated table
+KEYLOG_FAMS = ("ccm", "genesis", "govkeys")  # harness families whose written keys are cross-checked against the generated table
 
 
 # ----------------------------------------------------------------------------- mirror of the decision procedures
